@@ -1129,6 +1129,11 @@ pub fn bvar_strategy() -> impl Strategy<Value = BVar> {
         2 => (s(), "-?[0-9]{1,30}").prop_map(|(sort, text)| BVar::ConstText { kind: 'd', sort, text }),
         1 => s().prop_map(|sort| BVar::ConstText { kind: 'd', sort, text: "-".into() }),
         2 => (s(), "[0-9a-fA-F]{1,40}").prop_map(|(sort, text)| BVar::ConstText { kind: 'h', sort, text }),
+        // candidate strings on which the validating constructors have to decide
+        2 => (s(), prop_oneof![Just('b'), Just('d'), Just('h')], "[0-9a-fA-F-]{1,10}")
+            .prop_map(|(sort, kind, text)| BVar::ConstText { kind, sort, text }),
+        1 => (s(), prop_oneof![Just('b'), Just('d'), Just('h')], "[0-2]{1,6}|[ -~]{1,4}|[0-9]{0,3}[²³٣]")
+            .prop_map(|(sort, kind, text)| BVar::ConstText { kind, sort, text }),
         2 => (s(), prop_oneof![Just("one"), Just("ones"), Just("zero")])
             .prop_map(|(sort, k)| BVar::ConstSimple { kind: k.into(), sort }),
         1 => s().prop_map(BVar::Input),
